@@ -297,6 +297,46 @@ def merge_delivery(P, R):
     R.floor('C17.GRD.1', 4)
 
 
+def spelling_adopted(P, R, rule='C17.MPT.12'):
+    """The merge pairs the nodes of the old and the new tree with the node comparator.  When that comparator folds
+    case, two nodes can be "the same" while their names are spelled differently - and names are data here (the name
+    of a service is what queries are addressed to, a rule's name is the class it hands out).  So in the function that
+    pairs the nodes, the present-in-both arm gives the live node the new spelling (a store to its name under an exact
+    comparison of the two names) and counts that as a change of membership."""
+    cmpf = P.need_fn('conf_object_cmp')
+    folds = any(isinstance(x, dict) and x.get('k') == 'callref' and x.get('callee') in ('strcasecmp', 'strncasecmp')
+                for t in cmpf.sites() for ex in rules.event_exprs(t.ev) for x in walk(ex))
+    if not folds:
+        R.ob(rule, True, cmpf, 'node names are compared exactly: a differently spelled name is a different node', key='spelling:exact-comparator', nontrivial=False)
+        R.floor(rule, 1)
+        return
+    rv = P.need_fn('conf_replace_value')
+    pairs = [t for t in rv.calls('conf_object_cmp')]
+    if not pairs:
+        raise AnalysisBroken('the merge no longer pairs nodes with conf_object_cmp')
+    stores = []
+    for t in rv.stores():
+        l = t.ev.get('lhs') or {}
+        if t.ev['k'] == 'store' and l.get('k') == 'mem' and l.get('field') == 'name' and l.get('rec') == 'conf_node_base':
+            gs = rv.guards(t.bid)
+            exact = any(isinstance(g[0], dict) and g[0].get('k') == 'callref' and g[0].get('callee') == 'strcmp' and g[1] == '!=' and const_of(g[2]) == 0
+                        and sum(1 for a in g[0]['args'] for x in walk(a) if isinstance(x, dict) and x.get('k') == 'mem' and x.get('field') == 'name') >= 2 for g in gs)
+            if exact:
+                stores.append(t)
+    ok = bool(stores)
+    flagged = False
+    if stores:
+        # the block that renames also marks the parent as modified (the local tested before the object hook)
+        hs = [t for t in rv.calls() if P.call_slot(t) == 'conf_node_base::hook']
+        flags = {g[0]['name'] for t in hs for g in rv.guards(t.bid) if is_var(g[0]) and g[1] == '!=' and const_of(g[2]) == 0}
+        for t in stores:
+            for u in rv.block_sites(t.bid):
+                if u.ev['k'] == 'store' and is_var(u.ev.get('lhs')) and u.ev['lhs']['name'] in flags and const_of(u.ev.get('rhs')) not in (None, 0):
+                    flagged = True
+    R.ob(rule, ok and flagged, stores[0] if stores else pairs[0], 'names are paired ignoring case, so the present-in-both arm of the merge adopts the new spelling of the name and marks the parent as changed', key='spelling:adopted')
+    R.floor(rule, 1)
+
+
 def run(P, R, tier):
     H = wiring(P, R)
     coverage(P, R, H)
@@ -305,6 +345,7 @@ def run(P, R, tier):
     rebuilds(P, R, H)
     foreign_state(P, R, H)
     merge_delivery(P, R)
+    spelling_adopted(P, R)
     # the dropped-section branch must read the OLD present bit (shared with C15.GRD.3)
     import types
     sub = types.SimpleNamespace()
